@@ -20,8 +20,9 @@ func init() {
 			"R8.2 only the identifier printer reads Identifier.Value; its named mapping carries the same field it writes next; " +
 			"R8.3 every byte appended to the output buffer is accounted to the mapper (same content, same path), and pending layout is flushed before a mapping is recorded; " +
 			"R8.4 source positions are token starts (= C10 R10.3, shared obligations); " +
-			"R8.5 only the constructor and the Advance methods move the generated position, each by a non-negative amount or to the next line, and mappings are only appended with the current position, so segments are ordered by construction.",
-		notDecided: []string{"decoding the map and comparing lexemes", "multi-byte characters (columns are bytes on both sides; the spec counts UTF-16 units)", "the post-pass that trims lines after positions were recorded (reported under C06)"},
+			"R8.5 only the constructor and the Advance methods move the generated position, each by a non-negative amount or to the next line, and mappings are only appended with the current position, so segments are ordered by construction; " +
+			"R8.6 the post-pass over the emitted text deletes nothing in front of a recorded position: it may cut line ends, and it may trim the start of the text only because no layout is appended while the output is empty and no printer text with leading blanks can come first (the defect found here — a source starting with a blank line had every segment one generated line too low — is repaired by a fix: commit).",
+		notDecided: []string{"decoding the map and comparing lexemes", "multi-byte characters (columns are bytes on both sides; the spec counts UTF-16 units)", "what the post-pass does to the text of multi-line literals (C06 R6.3)"},
 	})
 }
 
@@ -120,6 +121,10 @@ func runC08(c *Ctx) {
 	c.rule("R8.5", "generated position moves only forward, written only by the constructor and the Advance methods; mappings are only appended with the current position")
 	c.floor(5)
 	ruleMonotonePosition(c)
+
+	c.rule("R8.6", "a post-pass over the emitted text deletes nothing in front of a recorded position: trims of the start of the text require that the output cannot start with whitespace (layout appends guarded by a buffer-non-empty test; no printer text with leading blanks can come first); per-line trims may only cut line ends")
+	c.floor(1)
+	rulePostPassPositions(c, t)
 }
 
 func ruleMappingPairing(c *Ctx, t *tables, node string, pe *printerEvents, facts []*parseFacts) {
@@ -483,4 +488,227 @@ func nonNegativeAtCallers(c *Ctx, f *ssa.Function, p *ssa.Parameter) bool {
 		})
 	}
 	return ok && sites > 0
+}
+
+
+// rulePostPassPositions: R8.6.
+func rulePostPassPositions(c *Ctx, t *tables) {
+	c.buildSSA()
+	w := c.writerCfg()
+	if w == nil {
+		c.unres("writer fields", token.NoPos, "CodeWriter fields not found")
+		return
+	}
+	var compile *ssa.Function
+	for _, f := range c.libFunctions("compiler") {
+		allInstrs(f, func(_ *ssa.BasicBlock, _ int, in ssa.Instruction) {
+			if al, ok := in.(*ssa.Alloc); ok && namedIs(al.Type(), "ast", "CodeWriter") {
+				compile = f
+			}
+		})
+	}
+	if compile == nil {
+		c.unres("compile function", token.NoPos, "no function of package compiler allocates an ast.CodeWriter")
+		return
+	}
+	var passes []*ssa.Function
+	allInstrs(compile, func(_ *ssa.BasicBlock, _ int, in ssa.Instruction) {
+		call, ok := in.(*ssa.Call)
+		if !ok {
+			return
+		}
+		cal := call.Call.StaticCallee()
+		if cal == nil || !isLibPath(pkgPathOf(cal)) || cal.Signature.Recv() != nil || len(cal.Params) != 1 || cal.Signature.Results().Len() != 1 {
+			return
+		}
+		if b, ok := cal.Params[0].Type().Underlying().(*types.Basic); !ok || b.Kind() != types.String {
+			return
+		}
+		passes = append(passes, cal)
+	})
+	if len(passes) == 0 {
+		c.ok("post-passes", compile.Pos(), "the compile function applies no post-pass to the emitted text")
+		return
+	}
+	startTrim := false
+	for _, pf := range passes {
+		allInstrs(pf, func(_ *ssa.BasicBlock, _ int, in ssa.Instruction) {
+			call, ok := in.(*ssa.Call)
+			if !ok {
+				return
+			}
+			cal := call.Call.StaticCallee()
+			if cal == nil || pkgPathOf(cal) != "strings" {
+				return
+			}
+			whole := call.Call.Args[0] == ssa.Value(pf.Params[0])
+			perLine := derivesFromSplitElement(call.Call.Args[0])
+			key := fmt.Sprintf("%s: strings.%s", fnName(pf), cal.Name())
+			switch cal.Name() {
+			case "Split", "Join", "SplitN", "SplitAfter":
+			case "TrimSpace", "Trim", "TrimLeft", "TrimPrefix", "TrimLeftFunc", "TrimFunc":
+				switch {
+				case whole:
+					startTrim = true
+					c.ok(key+" on the whole text", call.Pos(), "cuts the start of the text: allowed only because the output cannot start with whitespace (obligations below)")
+				case perLine:
+					c.bad(key+" per line", call.Pos(), "cuts the start of every line after the generated columns were recorded: every segment on an indented line points too far right")
+				default:
+					c.unres(key, call.Pos(), "trim applied to something that is neither the whole text nor a line of it")
+				}
+			case "TrimRight", "TrimSuffix", "TrimRightFunc":
+				c.ok(key, call.Pos(), "cuts only the end of the text / of a line, behind the last recorded position on it (a position is recorded right before a token's text: R8.1)")
+			default:
+				c.unres(key, call.Pos(), "effect on recorded positions not classified")
+			}
+		})
+	}
+	if !startTrim {
+		return
+	}
+	// (b) layout appends are guarded by a buffer-non-empty test
+	isBufWrite := func(call *ssa.Call) bool {
+		cal := call.Call.StaticCallee()
+		if cal == nil || pkgPathOf(cal) != "strings" || !strings.HasPrefix(cal.Name(), "Write") || len(call.Call.Args) < 2 {
+			return false
+		}
+		fa, ok := call.Call.Args[0].(*ssa.FieldAddr)
+		return ok && fieldOfAddr(fa) == w.buf
+	}
+	isWriter := func(f *ssa.Function) bool {
+		return f.Signature.Recv() != nil && namedIs(f.Signature.Recv().Type(), "ast", "CodeWriter")
+	}
+	prims := map[*ssa.Function]bool{}
+	for _, f := range c.libFunctions("ast") {
+		if !isWriter(f) || len(f.Params) != 2 {
+			continue
+		}
+		allInstrs(f, func(_ *ssa.BasicBlock, _ int, in ssa.Instruction) {
+			if call, ok := in.(*ssa.Call); ok && isBufWrite(call) && call.Call.Args[1] == ssa.Value(f.Params[1]) && (f.Object() == nil || !f.Object().Exported()) {
+				prims[f] = true
+			}
+		})
+	}
+	// bufNonEmptyEdge: the successor index of block b taken when the buffer is known to be non-empty
+	bufLen := func(v ssa.Value) bool {
+		call, ok := v.(*ssa.Call)
+		if !ok {
+			return false
+		}
+		if cal := call.Call.StaticCallee(); cal != nil && pkgPathOf(cal) == "strings" && cal.Name() == "Len" {
+			fa, ok := call.Call.Args[0].(*ssa.FieldAddr)
+			return ok && fieldOfAddr(fa) == w.buf
+		}
+		if lc, ok := isBuiltinCall(v, "len"); ok {
+			if sc, ok := lc.Call.Args[0].(*ssa.Call); ok {
+				if cal := sc.Call.StaticCallee(); cal != nil && pkgPathOf(cal) == "strings" && cal.Name() == "String" {
+					fa, ok := sc.Call.Args[0].(*ssa.FieldAddr)
+					return ok && fieldOfAddr(fa) == w.buf
+				}
+			}
+		}
+		return false
+	}
+	nonEmptyEdge := func(b *ssa.BasicBlock) int {
+		iff := blockIf(b)
+		if iff == nil {
+			return -1
+		}
+		cond, neg := iff.Cond, false
+		for {
+			if u, ok := cond.(*ssa.UnOp); ok && u.Op == token.NOT {
+				cond, neg = u.X, !neg
+				continue
+			}
+			break
+		}
+		bo, ok := cond.(*ssa.BinOp)
+		if !ok || !bufLen(bo.X) {
+			return -1
+		}
+		k, ok := constInt64(bo.Y)
+		if !ok {
+			return -1
+		}
+		edge := -1
+		switch {
+		case bo.Op == token.GTR && k == 0, bo.Op == token.NEQ && k == 0, bo.Op == token.GEQ && k == 1:
+			edge = 0
+		case bo.Op == token.EQL && k == 0, bo.Op == token.LEQ && k == 0, bo.Op == token.LSS && k == 1:
+			edge = 1
+		}
+		if edge >= 0 && neg {
+			edge = 1 - edge
+		}
+		return edge
+	}
+	var guarded func(in ssa.Instruction, depth int) bool
+	guarded = func(in ssa.Instruction, depth int) bool {
+		f := in.Parent()
+		for _, b := range f.Blocks {
+			if e := nonEmptyEdge(b); e >= 0 && edgeDominates(b, b.Succs[e], in.Block()) {
+				return true
+			}
+		}
+		if depth >= 3 || f.Object() == nil || f.Object().Exported() {
+			return false
+		}
+		sites, all := 0, true
+		for _, g := range c.libFunctions() {
+			allInstrs(g, func(_ *ssa.BasicBlock, _ int, in2 ssa.Instruction) {
+				if ci, ok := in2.(ssa.CallInstruction); ok && ci.Common().StaticCallee() == f {
+					sites++
+					if !guarded(in2, depth+1) {
+						all = false
+					}
+				}
+			})
+		}
+		return sites > 0 && all
+	}
+	for _, f := range c.libFunctions("ast") {
+		n := 0
+		allInstrs(f, func(_ *ssa.BasicBlock, _ int, in ssa.Instruction) {
+			call, ok := in.(*ssa.Call)
+			if !ok {
+				return
+			}
+			var content ssa.Value
+			switch {
+			case isBufWrite(call), prims[call.Call.StaticCallee()]:
+				content = call.Call.Args[1]
+			default:
+				return
+			}
+			v := unwrap(content)
+			what := ""
+			if s, ok := isWhitespaceConst(v); ok && s != "" {
+				what = fmt.Sprintf("whitespace constant %q", s)
+			} else if isElemOfField(v, w.pendings) {
+				what = "pending layout"
+			} else if ok, _ := isIndentValue(v, w.indentS); ok {
+				what = "indentation"
+			}
+			if what == "" {
+				return
+			}
+			n++
+			key := fmt.Sprintf("%s: layout append #%d (%s)", fnName(f), n, what)
+			c.check(guarded(call, 0), key, call.Pos(), "executed only when the output buffer is known to be non-empty", "layout can be written while the output is still empty: the post-pass trims it from the start of the code after the source mapper counted it, so every segment is shifted (a source starting with a blank line maps its first statement one generated line too low)")
+		})
+	}
+	// (c) no printer text with leading blanks can be the first text of the output
+	if !c.extractorProblems(t, "lexemes", "parser", "printer") {
+		g := c.grammar(t)
+		fm := c.fusionModel(t, g)
+		for _, m := range fmodes {
+			s := fm.sums[m.name]["Program"]
+			if s == nil {
+				c.unres("Program: first text ["+m.name+"]", token.NoPos, "no summary for the program printer")
+				continue
+			}
+			_, has := s.first[litSepLex.id()]
+			c.check(!has, "Program: first text of the output ["+m.name+"]", token.NoPos, "no constant text with leading blanks can be written first", "a constant text with leading blanks can be the first text of the output: the start trim removes bytes the mapper has counted")
+		}
+	}
 }
